@@ -9,7 +9,7 @@ import tempfile
 
 import sim
 import campaign as cp
-from engine_trace import Converter, mid
+from engine_trace import Converter, mid, IGNORED_TIMERS
 
 
 class Info:
@@ -65,11 +65,19 @@ def sample(w, conv, arns):
     return out
 
 
-def run_many(definition, inputs, worker, tmpdir, chooser=None, mtype="STANDARD", max_steps=4000):
-    """Start len(inputs) executions of one machine in a fresh world and run to quiescence."""
+CHILD_ARN = cp.ARN + "child"
+EMPTY_SAMPLE = {"record": None, "queued": 0, "held": 0, "hist": [], "hist_first": None, "hist_last": None}
+
+
+def run_many(definition, inputs, worker, tmpdir, chooser=None, mtype="STANDARD", max_steps=4000, child=None):
+    """Start len(inputs) executions of one machine in a fresh world and run to quiescence.
+    child: the definition of the machine that Task states of `definition` launch as child executions (registered as CHILD_ARN);
+    the executions that the engine starts itself are added to info.arns when their start event is published."""
     w = sim.World(tmpdir)
     w.clock.t += 33 / 64.0        # a start time with a sub-millisecond fraction (exact in binary)
     w.register(cp.ARN, definition, mtype=mtype)
+    if child is not None:
+        w.register(CHILD_ARN, child)
     names = ["x%d" % i for i in range(len(inputs))]
     arns = [cp.ARN.replace("stateMachine", "execution") + ":" + n for n in names]
     starts = []
@@ -82,6 +90,12 @@ def run_many(definition, inputs, worker, tmpdir, chooser=None, mtype="STANDARD",
     seen = [0]
 
     def on_step(world, what):
+        if child is not None:
+            for t in world.trace[seen[0]:]:
+                if t[0] == "publish" and t[3] == "event" and isinstance(t[5], dict):
+                    xa = ((t[5].get("context") or {}).get("Execution") or {}).get("Id") or arn_of(t[5])
+                    if xa and xa not in arns:
+                        arns.append(xa)
         smp = sample(world, None, arns)
         for t in world.trace[seen[0]:]:
             if t[0] == "broadcast":
@@ -91,6 +105,7 @@ def run_many(definition, inputs, worker, tmpdir, chooser=None, mtype="STANDARD",
         samples.append(smp)
     info = Info()
     info.exception = None
+    stale = []
     steps = 0
     status = None
     while steps < max_steps:
@@ -108,6 +123,13 @@ def run_many(definition, inputs, worker, tmpdir, chooser=None, mtype="STANDARD",
             if not pt:
                 status = "quiescent"
                 break
+            # nothing queued, nothing to deliver: when every execution has also ended, whatever timer is still armed was left behind
+            eng = w.instances["i1"].engine
+            if not w.unacked and not any(w.queues.values()) and all((eng.executions.get(a) or {}).get("status") in ("SUCCEEDED", "FAILED") for a in arns if mtype == "STANDARD"):
+                for due, seq, k in pt:
+                    nm = w.timers[k]["name"]
+                    if mtype == "STANDARD" and arns and nm not in IGNORED_TIMERS and (k, nm) not in [(x[0], x[1]) for x in stale]:
+                        stale.append((k, nm, due - w.clock.t))
             w.advance_to(pt[0][0])
             steps += 1
             continue
@@ -122,6 +144,11 @@ def run_many(definition, inputs, worker, tmpdir, chooser=None, mtype="STANDARD",
             break
         on_step(w, kind)
         steps += 1
+    for smp in samples:         # an execution that the engine launched later did not exist yet
+        for a in arns:
+            smp.setdefault(a, dict(EMPTY_SAMPLE))
+    info.child = child
+    info.stale_timers = [[str(k), nm, round(dt, 3)] for k, nm, dt in stale]
     info.world = w
     info.status = status or "max_steps"
     info.trace = list(w.trace)
@@ -140,6 +167,12 @@ def run_many(definition, inputs, worker, tmpdir, chooser=None, mtype="STANDARD",
 
 def convert(info):
     conv = Converter(info.definition)
+    if getattr(info, "child", None) is not None:
+        from engine_trace import all_state_names, state_kinds
+        extra = [n for n in all_state_names(info.child) if n not in conv.sidx]
+        conv.names += extra
+        conv.kinds += state_kinds(info.child, extra)
+        conv.sidx = {n: i for i, n in enumerate(conv.names)}
     for a in info.arns:
         conv.x(a)
     steps = conv.steps(info.trace)
@@ -198,11 +231,17 @@ def gen_runs(rng, tmpdir, n, profile, thorough=False, mtype="STANDARD"):
             definition = g.machine()
             worker = cp.Worker(rng.randrange(10 ** 6), failures=0.3)
             k = 1
+        elif profile == "children":
+            definition, child = children_machines(rng)
+            worker = cp.Worker(rng.randrange(10 ** 6), failures=0.2, hangs=0.05)
+            k = rng.choice([1, 1, 2])
         else:       # fanout_fail_nested
             g = cp.Gen(rng, fanout=True, max_depth=3 if thorough else 2)
             definition = g.machine()
             worker = cp.Worker(rng.randrange(10 ** 6), failures=0.25)
             k = rng.choice([1, 1, 2])
+        if profile != "children":
+            child = None
         inputs = []
         for _ in range(k):
             d = json.loads(json.dumps(cp.INPUT))
@@ -212,7 +251,7 @@ def gen_runs(rng, tmpdir, n, profile, thorough=False, mtype="STANDARD"):
         sched = rng.choice(["canonical", "random", "random"])
         sseed = rng.randrange(10 ** 9)
         chooser = None if sched == "canonical" else random_chooser(random.Random(sseed))
-        info = run_many(definition, inputs, worker, tmpdir, chooser=chooser, mtype=mtype)
+        info = run_many(definition, inputs, worker, tmpdir, chooser=chooser, mtype=mtype, child=child)
         info.schedule = sched if sched == "canonical" else "random(seed=%d)" % sseed
         info.worker_desc = {"seed": worker.seed, "failures": worker.failures, "hangs": worker.hangs, "outcomes": {"%s %s" % k: v for k, v in worker.oracle.items()}}
         info.profile = profile
@@ -220,7 +259,72 @@ def gen_runs(rng, tmpdir, n, profile, thorough=False, mtype="STANDARD"):
     return out
 
 
+LAUNCHES = ["arn:aws:states:::states:startExecution", "arn:aws:states:::states:startExecution.sync", "arn:aws:states:::states:startExecution.sync:2"]
+
+
+def children_machines(rng):
+    """-> (parent, child): a random machine some of whose Task states (at any depth) launch the child machine, fire-and-forget or
+    waiting for it (.sync, .sync:2), some with a Task timeout shorter than the child needs (the child is then cancelled)"""
+    gc = cp.Gen(rng, fanout=False)
+    gc.n = 100                                  # state names distinct from the parent's
+    child = gc.machine(length=rng.randrange(1, 4))
+    if rng.random() < 0.5:                      # make sure that many children take some time: a Wait first
+        w = gc.name()
+        child["States"][w] = {"Type": "Wait", "Seconds": rng.choice([1, 3]), "Next": child["StartAt"]}
+        child["StartAt"] = w
+    gp = cp.Gen(rng, fanout=rng.random() < 0.5, max_depth=1)
+    parent = gp.machine(length=rng.randrange(1, 4))
+    tasks = []
+
+    def walk(m):
+        for st in m["States"].values():
+            if st["Type"] == "Task":
+                tasks.append(st)
+            for b in st.get("Branches", []):
+                walk(b)
+            for key in ("Iterator", "ItemProcessor"):
+                if key in st:
+                    walk(st[key])
+    walk(parent)
+    if not tasks:                               # at least one launch
+        nm = gp.name()
+        parent["States"][nm] = {"Type": "Task", "Resource": "x", "Next": parent["StartAt"]}
+        parent["StartAt"] = nm
+        tasks.append(parent["States"][nm])
+    for i, st in enumerate(tasks):
+        if i == 0 or rng.random() < 0.6:
+            st["Resource"] = rng.choice(LAUNCHES)
+            st.pop("ResultSelector", None)
+            st.pop("InputPath", None)
+            st["Parameters"] = {"StateMachineArn": CHILD_ARN, "Input.$": "$$.Execution.Input"}
+            # (no "Name": a launch repeated under one name re-runs that execution - finding F33, exercised by a directed run of C02)
+            if rng.random() < 0.35:
+                st["TimeoutSeconds"] = rng.choice([1, 2, 30])
+            else:
+                st.pop("TimeoutSeconds", None)
+    return parent, child
+
+
+def named_child_rerun(tmpdir):
+    """The directed run of finding F33: a child launched under a fixed Name fails, the Retry of the parent's Task launches it
+    again under the same name, hence under the same execution ARN."""
+    parent = {"StartAt": "L", "States": {"L": {"Type": "Task", "Resource": LAUNCHES[1], "Parameters": {"StateMachineArn": CHILD_ARN, "Name": "fixed-name", "Input.$": "$"},
+                                               "Retry": [{"ErrorEquals": ["States.ALL"], "IntervalSeconds": 1, "MaxAttempts": 1}], "End": True}}}
+    child = {"StartAt": "T", "States": {"T": {"Type": "Task", "Resource": sim.FN + "f", "End": True}}}
+    worker = cp.Worker(1, failures=0.0)
+    worker.forced[("f", None)] = [("err", "A"), ("ok", {"done": 1})]
+    info = run_many(parent, [{"a": 1}], worker, tmpdir, child=child)
+    info.schedule = "canonical"
+    info.worker_desc = {"seed": 1, "failures": 0.0, "hangs": 0.0, "forced": {"f": [["err", "A"], ["ok", {"done": 1}]]}}
+    info.profile = "directed_named_child"
+    return convert(info)
+
+
 def describe(info):
+    if getattr(info, "child", None) is not None:
+        return {"profile": info.profile, "schedule": info.schedule, "definition": info.definition, "child_definition": info.child, "inputs": info.inputs,
+                "status": info.status, "executions": len(info.arns), "steps": len(info.steps), "type": info.mtype,
+                "task_outcomes": getattr(info, "worker_desc", None), "exception": getattr(info, "exception", None)}
     return {"profile": info.profile, "schedule": info.schedule, "definition": info.definition, "inputs": info.inputs,
             "status": info.status, "executions": len(info.arns), "steps": len(info.steps), "type": info.mtype,
             "task_outcomes": getattr(info, "worker_desc", None), "exception": getattr(info, "exception", None)}
